@@ -47,20 +47,29 @@ class Fork:
         if self.next is None:
             if self.head.value is None:
                 while self.head.value is None:
+                    if self.head.exc is not None:
+                        # `instream` raised before producing any element.
+                        raise self.head.exc
                     # Do not wait on the lock unconditionally: a peer fork may be holding it
                     # while blocked on the full buffer, which only drains once this fork
                     # consumes the first element; so keep re-checking `head.value`.
                     if not self.instream_lock.acquire(timeout=0.1):
                         continue
                     try:
-                        if self.head.value is None:
+                        if self.head.value is None and self.head.exc is None:
                             # Get the very first data element out of `instream`
                             # across all forks.
                             # If this raises `StopIteration`, meaning `instream`
                             # is empty, the exception will be propagated, halting
                             # this fork. All the other forks will also get to this
                             # point and exit the same way.
-                            x = next(self.instream)
+                            try:
+                                x = next(self.instream)
+                            except StopIteration:
+                                raise
+                            except Exception as e:
+                                self.head.exc = e
+                                raise
                             box = TeeX(x)
                             self.buffer.put(box)
                             self.head.value = box
@@ -75,6 +84,10 @@ class Fork:
                 self.next = self.head.value
                 return self.__next__()
             else:
+                if self.head.exc is not None:
+                    # `instream` ended with this exception; every fork ends the same way,
+                    # after having yielded all the elements `instream` produced.
+                    raise self.head.exc
                 raise StopIteration
         else:
             while self.next.next is None:
@@ -87,7 +100,7 @@ class Fork:
                 locked = self.instream_lock.acquire(timeout=0.1)
                 if locked:
                     try:
-                        if self.next.next is None:
+                        if self.next.next is None and self.head.exc is None:
                             try:
                                 x = next(self.instream)
                             except StopIteration:
@@ -96,6 +109,11 @@ class Fork:
                                 # The next call to `__next__` will land
                                 # in the first branch and raise `StopIteration`.
                                 pass
+                            except Exception as e:
+                                # `instream` has failed. Remember the exception:
+                                # every fork first yields the elements obtained so far,
+                                # then raises it (in the first branch of `__next__`).
+                                self.head.exc = e
                             else:
                                 box = TeeX(x)
                                 self.next.next = box  # IMPORTANT: this line goes before the next to avoid race.
@@ -202,6 +220,8 @@ def tee(
 
     head = SimpleNamespace()
     head.value = None
+    head.exc = None
+    # If `instream` raises an exception, it is kept here and raised by every fork.
     # `head` holds the very first element of `instream`.
     # Once assigned, `head` will not change.
 
